@@ -83,14 +83,16 @@ def main(argv):
         if a.startswith("-j"):
             jobs = int(a[2:] or 8)
     pats = [p for p in pats if not p.startswith("-j")]
-    if jobs > 1:
-        from concurrent.futures import ThreadPoolExecutor
-        with ThreadPoolExecutor(max_workers=jobs) as ex:
-            results = list(ex.map(lambda p: run_patch(p, props or None, verbose=False), pats))
-    else:
-        results = None
-    for i, p in enumerate(pats):
-        r = results[i] if results is not None else run_patch(p, props or None, verbose=verbose)
+    def safe(p):
+        try:
+            return run_patch(p, props or None, verbose=verbose and jobs == 1)
+        except Exception as e:          # a patch that disappears or a crash of one run must not lose the others' results
+            return {"patch": p, "error": repr(e)[:300], "expect": []}
+    from concurrent.futures import ThreadPoolExecutor
+    ex = ThreadPoolExecutor(max_workers=max(1, jobs))
+    results = ex.map(safe, pats)             # yields in order, as they complete
+    for p, r in zip(pats, results):
+        sys.stdout.flush()
         if "error" in r:
             print("ERROR  %s: %s" % (p, r["error"]))
             bad += 1
